@@ -22,8 +22,8 @@ import vlib
 
 META = {
     "category": "proof",
-    "text": "Coq theorems (Snap/Props_C07.v) over an executable model of the scan cursor and of the lifetimes of what it reads (skiplist nodes, versions, SST files, open handles): in every interleaving of completed writes, rollovers, flushes, installs of new versions (compactions, moves, GCs), trash clean-up, cache evictions and cursor calls - forward, backward, seeks, several cursors - no cursor call touches freed skiplist nodes or a missing file, and each cursor keeps behaving as the reference cursor over the contents at scan-open time - writes into the very memtable it iterates included (C07_cursor_snapshot_stable: late-tolerant children, merge and pruning cursor); the pre-repair lifetime rules (iterator not owning the nodes, cursor not owning its VersionRef) are models too and are refuted. The model is tied to lsmtk by lock-step replay of single-stepped real histories with cursors held across events (observations, errors, sst/ and trash/ contents), with an allocation registry on every skiplist node dereference and a count of freed nodes compared with the model's memtable lifetimes, against a Python reference cursor over the map frozen at scan-open, and by a concurrent stage (writer threads against scanning threads) for the one assumption the atomic-event model makes about the read timestamp.",
-    "note": "Trusted: Coq kernel; extraction (ExtrOcamlBasic) + ocaml/snap driver; harness c07 + cfg(blue_verif) hooks (single-step compaction, flush handshake, dump, skipfree node-lifetime hook); this module. Modelled, not verified here: the combinators themselves (area Cursor, C11), an SstCursor as the table of its entries (C10), the skiplist's internals (C17: the iterator is modelled as successor/predecessor in the sorted node list), events as atomic steps (a write is visible all at once: C06), storage errors other than a missing file, the file manager's open-file limit.",
+    "text": "Coq theorems (Snap/Props_C07.v) over an executable model of the scan cursor and of the lifetimes of what it reads (skiplist nodes, versions, SST files, open handles): in every interleaving of completed writes, rollovers, flushes, installs of new versions (compactions, moves, GCs), trash clean-up, cache evictions and cursor calls - forward, backward, seeks, several cursors - no cursor call touches freed skiplist nodes or a missing file, and each cursor keeps behaving as the reference cursor over the contents at scan-open time - writes into the very memtable it iterates included, whole or in their parts (sequence number assigned / entries inserted one by one / published; a scan may be opened between insert and publish) (C07_cursor_snapshot_stable: late-tolerant children, merge and pruning cursor), at every state reached by an accepted history with nothing evaluated on that state (C07_cursor_snapshot_stable_accepted: the hypotheses about the store at scan-open are invariants); the pre-repair lifetime rules (iterator not owning the nodes, cursor not owning its VersionRef) are models too and are refuted. The model is tied to lsmtk by lock-step replay of single-stepped real histories with cursors held across events (observations, errors, sst/ and trash/ contents), with an allocation registry on every skiplist node dereference and a count of freed nodes compared with the model's memtable lifetimes, against a Python reference cursor over the map (key -> sequence number, value) frozen at scan-open, with the model's acceptance predicate acc_ev evaluated on every event of the real histories (real flushes and compaction outputs are accepted), and by a concurrent stage (writer threads against scanning threads) for the one assumption the atomic-event model makes about the read timestamp.",
+    "note": "Trusted: Coq kernel; extraction (ExtrOcamlBasic) + ocaml/snap driver; harness c07 + cfg(blue_verif) hooks (single-step compaction, flush handshake, dump, skipfree node-lifetime hook); this module. Modelled, not verified here: the combinators themselves (area Cursor, C11), an SstCursor as the table of its entries (C10), the skiplist's internals (C17: the iterator is modelled as successor/predecessor in the sorted node list), events as atomic steps (a write is visible all at once: C06), storage errors other than a missing file, the file manager's open-file limit. Atomic events also hide a LEAK race seen by an audit in LsmTree::explicit_unref (two holders of one Arc<Version> dropping concurrently can both read strong_count = 2 and both return, so the version dies without release_sst and its files stay in sst/ until the next open's cleanup_orphans): a file kept too long, not removed too early, hence not a violation of C07 (or C08).",
 }
 
 PROPS = "theories/Snap/Props_C07.v"
@@ -34,6 +34,8 @@ OPTION_SETS = [
     ("tiny-files", ["--sst-target-file-size", "150", "--sst-minimum-file-size", "60", "--sst-target-block-size", "64"]),
     ("few-files-per-compaction", ["--sst-target-file-size", "300", "--sst-minimum-file-size", "100", "--sst-target-block-size", "96", "--max-compaction-files", "4"]),
     ("big-files", ["--sst-target-block-size", "256"]),
+    # the default way of opening files: through the LRU sst cache (small, so that it evicts); model flag cf_cache = 1
+    ("lru-sst-cache", ["--sst-target-file-size", "300", "--sst-minimum-file-size", "100", "--sst-target-block-size", "96", "--sst-cache-bytes", "2000"]),
 ]
 # no automatic rollover, no stall; nothing stays in the sst cache, so a retired file that is opened
 # late really is opened by path
@@ -54,6 +56,18 @@ CONC_SETS = [
 
 # model switches: cf_iter_owns cf_holds_ver cf_cache  (the repaired code, cache off as in BASE_OPTS)
 MODEL_FLAGS = os.environ.get("C07_MODEL_FLAGS", "1 1 0")
+
+
+def split_opts(opts):
+    """(options for the harness, model flags): an option set that sets --sst-cache-bytes replaces the `0` of BASE_OPTS and
+    switches the model's cache on"""
+    if "--sst-cache-bytes" in opts:
+        i = BASE_OPTS.index("--sst-cache-bytes")
+        base = BASE_OPTS[:i] + BASE_OPTS[i + 2:]
+        cached = opts[opts.index("--sst-cache-bytes") + 1] != "0"
+        flags = MODEL_FLAGS if "C07_MODEL_FLAGS" in os.environ else ("1 1 1" if cached else "1 1 0")
+        return base + opts, flags
+    return BASE_OPTS + opts, MODEL_FLAGS
 
 
 def hx(b):
@@ -173,11 +187,11 @@ def in_bounds(k, lo, hi):
 
 
 class RefCursor:
-    """the property itself: the key->value map as it was when the scan was opened, restricted to
-    the bounds, walked by the plainest possible cursor (an index into the sorted list)"""
+    """the property itself: the key -> (sequence number, value) map as it was when the scan was opened, restricted
+    to the bounds, walked by the plainest possible cursor (an index into the sorted list)"""
 
     def __init__(self, spec, lo, hi):
-        self.l = sorted((k, v) for k, v in spec.items() if v is not None and in_bounds(k, lo, hi))
+        self.l = sorted((k, tv[0], tv[1]) for k, tv in spec.items() if tv[1] is not None and in_bounds(k, lo, hi))
         self.i = -1
 
     def step(self, op):
@@ -203,8 +217,9 @@ def parse_bound(s):
 
 # ---------------------------------------------------------------- one history, in lock step
 class Run:
-    def __init__(self, exe, mx_exe, opts, tag, prefix=None, errlog=None):
+    def __init__(self, exe, mx_exe, opts, tag, prefix=None, errlog=None, flags=None):
         self.root = fresh_root(tag)
+        self.flags = flags or MODEL_FLAGS
         self.cache = {}       # setsum -> list of (k, ts, v)
         self.ids = {}         # setsum -> int
         self.levels = [[] for _ in range(16)]
@@ -228,7 +243,7 @@ class Run:
             self.dead = True
             return
         st = self.scmd("state")[0].split()
-        self.model.cmd("H %d %s" % (int(st[1]), MODEL_FLAGS))
+        self.model.cmd("H %d %s" % (int(st[1]), self.flags))
 
     def problem(self, kind, **kw):
         d = {"kind": kind, "at_event": len(self.events)}
@@ -361,8 +376,9 @@ class Run:
         m = self.model.cmd("W " + ",".join("%s=%s" % (hx(k), "~" if v is None else hx(v)) for k, v in batch))
         if m != "W ok":
             self.problem("corr", what="model rejected batch", op=line, model=m)
+        ts = int(self.scmd("state")[0].split()[1])      # the sequence number the store gave the batch
         for k, v in batch:
-            self.spec[k] = v
+            self.spec[k] = (ts, v)
         self.mem_nonempty = True
         self.stats["write"] += 1
         self.note("write")
@@ -518,11 +534,11 @@ class Run:
             got = None
             if o != ".":
                 kt, v = o.split("=", 1)
-                got = (unhx(kt.split("@")[0]), unhx(v)) if v != "~" else (unhx(kt.split("@")[0]), None)
+                got = (unhx(kt.split("@")[0]), int(kt.split("@")[1]), unhx(v) if v != "~" else None)
                 self.stats["nonempty_obs"] += 1
             self.stats["obs"] += 1
             if got != want[i]:
-                bad = "call %d (%s): got %s, the contents at scan-open time give %s" % (i, op, o, "." if want[i] is None else "%s=%s" % (hx(want[i][0]), hx(want[i][1])))
+                bad = "call %d (%s): got %s, the contents at scan-open time give %s" % (i, op, o, "." if want[i] is None else "%s@%d=%s" % (hx(want[i][0]), want[i][1], hx(want[i][2])))
                 break
         if bad is None and len(obs) > len(prog):
             bad = "extra output: " + " ".join(obs[len(prog):])      # UAF:<n> from the allocation registry
@@ -554,6 +570,16 @@ class Run:
         reg = None
         rc = None
         try:
+            a = self.model.cmd("A")
+            f = dict(t.split("=") for t in a.split()[1:])
+            self.stats["events_accepted_by_acc_ev"] = int(f["accepted"])
+            if int(f["rejected"]):
+                # the history of the real store is outside the histories C07_cursor_snapshot_stable_accepted covers
+                self.problem("corr", what="Model.acc_ev rejects an event of this history of the real store (a flush before its writers published, "
+                             "or a compaction output that is not well formed or holds a (key, timestamp) its inputs do not hold)", model=a)
+        except Exception:
+            pass
+        try:
             if not self.dead:
                 reg = self.scmd("reg")[0]
             rc = self.sess.close()
@@ -567,7 +593,8 @@ class Run:
 
 
 def run_history(exe, mx_exe, opts, ops, tag, prefix=None, errlog=None):
-    run = Run(exe, mx_exe, BASE_OPTS + opts, tag, prefix, errlog)
+    allopts, flags = split_opts(opts)
+    run = Run(exe, mx_exe, allopts, tag, prefix, errlog, flags)
     try:
         for op in ops:
             if run.dead:
@@ -860,11 +887,11 @@ def run(chk):
             shapes.add(json.dumps(ops_to_json(ops))[:3000])
     chk.coverage.update({
         "evaluations": total.get("obs", 0), "distinct_nontrivial": len(shapes),
-        "rule": "random single-stepped histories on the real store (puts/deletes/batches over a key universe with shared prefixes, rollover+flush, 1..40 compaction steps, trash removal, the real verifier) with up to 3 scan cursors open at once (all nine bound shapes), each driven by short programs of next/prev/seek/seek_to_first/seek_to_last between the store's events, under 4 option sets shaping file sizes; evaluations = cursor observations compared 3-way (real, extracted model, Python reference over the map frozen at scan-open); non-trivial history = some cursor returned an entry after being held across a write, flush, install or clean-up; distinct = distinct op lists",
+        "rule": "random single-stepped histories on the real store (puts/deletes/batches over a key universe with shared prefixes, rollover+flush, 1..40 compaction steps, trash removal, the real verifier) with up to 3 scan cursors open at once (all nine bound shapes), each driven by short programs of next/prev/seek/seek_to_first/seek_to_last between the store's events, under 5 option sets (4 shaping file sizes with the sst cache off, 1 opening files through a small LRU sst cache with the model's cache switch on); evaluations = cursor observations compared 3-way (real, extracted model, Python reference over the map frozen at scan-open); non-trivial history = some cursor returned an entry after being held across a write, flush, install or clean-up; distinct = distinct op lists",
         "samples": [ops_to_json(results[-1][2])[:14], ops_to_json(results[ncorpus][2])[:14] if len(results) > ncorpus else []],
         "input_distribution": total, "histories": len(results), "corpus_cases": ncorpus,
         "traces_validated_against_impl": len(results),
-        "problems_seen": n_problems, "valgrind": vg, "concurrent_stage": conc, "model_flags(iter_owns holds_ver cache)": MODEL_FLAGS,
+        "problems_seen": n_problems, "valgrind": vg, "concurrent_stage": conc, "model_flags(iter_owns holds_ver cache)": MODEL_FLAGS + " ; option set lru-sst-cache (files opened through a 2000-byte LRU sst cache): 1 1 1",
         "disagreements_impl_vs_model": sum(1 for _, _, _, r in results for p in r.problems if p["kind"] == "corr"),
         "disagreements_impl_vs_spec": sum(1 for _, _, _, r in results for p in r.problems if p["kind"] in ("read", "error")),
         "trusted_base": [
